@@ -11,7 +11,7 @@ try:
     out = subprocess.run(["git", "-C", "/repo", "log", "--format=%H %s"], capture_output=True, text=True).stdout
     for l in out.splitlines():
         h, s = l.split(" ", 1)
-        if s.startswith("verif hook"):
+        if s.startswith("verif hook"):  # "verif hook Hn:" and "verif hooks ...:"
             hooks_commits.append(h)
 except Exception:
     pass
